@@ -20,6 +20,7 @@ func stringify0(v *val.Val, inProcess util.PtrSet) string {
 			return fmt.Sprintf("recursive-val %s@%p", v.Type, v)
 		} else {
 			inProcess.Add(v)
+			defer inProcess.Remove(v)
 		}
 	}
 
